@@ -32,6 +32,14 @@ M = {
         _w({{"who": "{pid}", "cb": "token", "file": context.scan_file, "fix": context.in_fix_mode, "tok": str(token),
             "l": token.line_number, "c": token.column_number}})
 ''',
+    "token-trigger": '''
+    def next_token(self, context, token):
+        _w({{"who": "{pid}", "cb": "token", "file": context.scan_file, "fix": context.in_fix_mode, "tok": str(token),
+            "l": token.line_number, "c": token.column_number}})
+        if not context.in_fix_mode and token.line_number > 0 and not getattr(self, "_pv_done", None) == context.scan_file:
+            self._pv_done = context.scan_file          # one report per file: the level of this recorder gets its own fix pass
+            self.report_next_token_error(context, token)
+''',
     "line": '''
     def next_line(self, context, line):
         _w({{"who": "{pid}", "cb": "line", "file": context.scan_file, "fix": context.in_fix_mode, "n": context.line_number, "line": line}})
@@ -43,13 +51,13 @@ M = {
 }
 
 
-def make(d, pid, fix=False, level=1, callbacks=("start", "token", "line", "complete"), default=True):
+def make(d, pid, fix=False, level=1, callbacks=("start", "token", "line", "complete"), default=True, trigger=False):
     """writes <d>/rec_<pid>.py and returns its path"""
     pid = pid.upper()
     # the loader imports by file name and this process may have imported another variant before: one name per variant
-    tag = "".join(c[0] for c in callbacks) + ("f" if fix else "n") + str(level) + ("e" if default else "d")
+    tag = "".join(c[0] for c in callbacks) + ("f" if fix else "n") + str(level) + ("e" if default else "d") + ("t" if trigger else "")
     path = os.path.join(d, f"rec_{pid.lower()}_{tag}.py")
-    methods = "".join(M[c].format(pid=pid) for c in callbacks)
+    methods = "".join(M["token-trigger" if trigger and c == "token" else c].format(pid=pid) for c in callbacks)
     open(path, "w").write(TEMPLATE.format(cls="Rec" + pid.capitalize() + tag.capitalize(), name="rec-" + pid.lower(), pid=pid, default=default, fix=fix,
                                           level=level, methods=methods))
     return path
